@@ -143,8 +143,23 @@ def CertRenew (pc : Pop) (now : Int) (lenient : Bool) : Prop :=
     (pc.before = certForever ∨ lenient = true ∨ (pc.before ≤ maxInt64 ∧ now / ns < (pc.before : Int)))
 
 /-- **What each provisioner type requires of an accepted token, as coded.** -/
-def Accepts (cfg : Config) (p : Prov) (c : Cr) (now : Int) (op : Op) (t : Tok) : Prop :=
+def Accepts (cfg : Config) (p : Prov) (c : Cr) (l : Cl) (now : Int) (op : Op) (t : Tok) : Prop :=
   match p.ty with
+  -- cloud identity documents (modelled from the source; not validated against the running code):
+  -- the audience is matched against the **sign** list for ssh-sign too, and **no subject requirement**
+  | .gcp =>
+      c.sig = true ∧ t.iss = gcpIssuer ∧ Window now t ∧ AudOk cfg p .sign t ∧
+      l.subject = true ∧ l.scope = true ∧ l.age = true ∧ l.fields = true ∧
+      (op = .sign ∨ (op = .sshSign ∧ p.sshEnabled = true ∧ l.sshKind = true))
+  | .aws =>
+      c.sig = true ∧ c.chain = true ∧ l.fields = true ∧ t.iss = awsIssuer ∧ Window now t ∧ AudOk cfg p .sign t ∧
+      l.subject = true ∧ l.scope = true ∧ l.age = true ∧
+      (op = .sign ∨ (op = .sshSign ∧ p.sshEnabled = true))
+  | .azure =>
+      -- the resource group / subscription / object id filters (`l.scope`) hold for sign only
+      c.sig = true ∧ (p.oidcIssuer = [] ∨ t.iss = p.oidcIssuer) ∧ (∃ a ∈ t.aud, a.raw = p.audience) ∧
+      Window now t ∧ t.tid = p.clientId ∧ l.fields = true ∧
+      ((op = .sign ∧ l.scope = true) ∨ (op = .sshSign ∧ p.sshEnabled = true))
   | .jwk =>
       c.sig = true ∧ ClaimsOk cfg p now op t ∧
       (op = .sign ∨ op = .revoke ∨ op = .sshRevoke ∨ (op = .sshSign ∧ SshTok p t))
@@ -417,15 +432,106 @@ theorem k8sOp_ok (p : Prov) (c : Cr) (now : Int) (op : Op) (t : Tok) (u : Unit) 
   · obtain ⟨a, b, c', d⟩ := k8sTok_ok _ _ _ _ _ hty h; exact ⟨a, b, c', d, by simp⟩
   · exact absurd h (baseReject_ne _)
 
+theorem audOk_of_match (cfg : Config) (p : Prov) (op : Op) (t : Tok)
+    (h : audMatch t.aud (provAuds cfg p op) = true) : AudOk cfg p op t := by
+  obtain ⟨a, ha, b, hb, hab⟩ := audMatch_true _ _ h
+  unfold provAuds at hb
+  simp only [List.mem_map] at hb
+  obtain ⟨b', hb', rfl⟩ := hb
+  exact ⟨a, ha, b', hb', hab⟩
+
+theorem gcpTok_ok (cfg : Config) (p : Prov) (c : Cr) (l : Cl) (now : Int) (t : Tok) (u : Unit)
+    (hty : p.ty = .gcp) (h : gcpTok cfg p c l now t = .ok u) :
+    c.sig = true ∧ t.iss = gcpIssuer ∧ Window now t ∧ AudOk cfg p .sign t ∧
+      l.subject = true ∧ l.scope = true ∧ l.age = true ∧ l.fields = true := by
+  unfold gcpTok at h
+  simp only [bind_ok, need_ok] at h
+  obtain ⟨_, h0, _, h1, _, h2, _, h3, _, h4, _, h5, h6⟩ := h
+  obtain ⟨hi, hw⟩ := validate_ok _ _ _ _ h1
+  refine ⟨h0, ?_, hw, audOk_of_match _ _ _ _ h2, h3, h4, h5, h6⟩
+  simp only [Prov.expIssuer, hty] at hi
+  rcases hi with hi | hi
+  · simp [gcpIssuer, s] at hi
+  · exact hi
+
+theorem gcpOp_ok (cfg : Config) (p : Prov) (c : Cr) (l : Cl) (now : Int) (op : Op) (t : Tok) (u : Unit)
+    (hty : p.ty = .gcp) (h : gcpOp cfg p c l now op t = .ok u) :
+    c.sig = true ∧ t.iss = gcpIssuer ∧ Window now t ∧ AudOk cfg p .sign t ∧
+      l.subject = true ∧ l.scope = true ∧ l.age = true ∧ l.fields = true ∧
+      (op = .sign ∨ (op = .sshSign ∧ p.sshEnabled = true ∧ l.sshKind = true)) := by
+  cases op <;> simp only [gcpOp, bind_ok, need_ok] at h
+  · obtain ⟨a, b, c', d, e, f, g, i⟩ := gcpTok_ok _ _ _ _ _ _ _ hty h
+    exact ⟨a, b, c', d, e, f, g, i, .inl rfl⟩
+  · obtain ⟨_, hs, _, hk, h'⟩ := h
+    obtain ⟨a, b, c', d, e, f, g, i⟩ := gcpTok_ok _ _ _ _ _ _ _ hty h'
+    exact ⟨a, b, c', d, e, f, g, i, .inr ⟨rfl, hs, hk⟩⟩
+  all_goals exact absurd h (baseReject_ne _)
+
+theorem awsTok_ok (cfg : Config) (p : Prov) (c : Cr) (l : Cl) (now : Int) (t : Tok) (u : Unit)
+    (hty : p.ty = .aws) (h : awsTok cfg p c l now t = .ok u) :
+    c.sig = true ∧ c.chain = true ∧ l.fields = true ∧ t.iss = awsIssuer ∧ Window now t ∧ AudOk cfg p .sign t ∧
+      l.subject = true ∧ l.scope = true ∧ l.age = true := by
+  unfold awsTok at h
+  simp only [bind_ok, need_ok] at h
+  obtain ⟨_, h0, _, h1, _, h2, _, h3, _, h4, _, h5, _, h6, h7⟩ := h
+  obtain ⟨hi, hw⟩ := validate_ok _ _ _ _ h3
+  refine ⟨h0, h1, h2, ?_, hw, audOk_of_match _ _ _ _ h4, h5, h6, h7⟩
+  simp only [Prov.expIssuer, hty] at hi
+  rcases hi with hi | hi
+  · simp [awsIssuer, s] at hi
+  · exact hi
+
+theorem awsOp_ok (cfg : Config) (p : Prov) (c : Cr) (l : Cl) (now : Int) (op : Op) (t : Tok) (u : Unit)
+    (hty : p.ty = .aws) (h : awsOp cfg p c l now op t = .ok u) :
+    c.sig = true ∧ c.chain = true ∧ l.fields = true ∧ t.iss = awsIssuer ∧ Window now t ∧ AudOk cfg p .sign t ∧
+      l.subject = true ∧ l.scope = true ∧ l.age = true ∧
+      (op = .sign ∨ (op = .sshSign ∧ p.sshEnabled = true)) := by
+  cases op <;> simp only [awsOp, bind_ok, need_ok] at h
+  · obtain ⟨a, b, c', d, e, f, g, i, j⟩ := awsTok_ok _ _ _ _ _ _ _ hty h
+    exact ⟨a, b, c', d, e, f, g, i, j, .inl rfl⟩
+  · obtain ⟨_, hs, h'⟩ := h
+    obtain ⟨a, b, c', d, e, f, g, i, j⟩ := awsTok_ok _ _ _ _ _ _ _ hty h'
+    exact ⟨a, b, c', d, e, f, g, i, j, .inr ⟨rfl, hs⟩⟩
+  all_goals exact absurd h (baseReject_ne _)
+
+theorem azureTok_ok (p : Prov) (c : Cr) (l : Cl) (now : Int) (t : Tok) (u : Unit)
+    (h : azureTok p c l now t = .ok u) :
+    c.sig = true ∧ (p.oidcIssuer = [] ∨ t.iss = p.oidcIssuer) ∧ (∃ a ∈ t.aud, a.raw = p.audience) ∧
+      Window now t ∧ t.tid = p.clientId ∧ l.fields = true := by
+  unfold azureTok at h
+  simp only [bind_ok, need_ok] at h
+  obtain ⟨_, h0, _, h1, _, h2, _, h3, _, h4, h5⟩ := h
+  refine ⟨h0, ?_, by simpa using h2, (validate_ok _ _ _ _ h3).2, by simpa using h4, h5⟩
+  simp at h1; rcases h1 with h1 | h1
+  · exact .inl h1
+  · exact .inr h1.symm
+
+theorem azureOp_ok (p : Prov) (c : Cr) (l : Cl) (now : Int) (op : Op) (t : Tok) (u : Unit)
+    (h : azureOp p c l now op t = .ok u) :
+    c.sig = true ∧ (p.oidcIssuer = [] ∨ t.iss = p.oidcIssuer) ∧ (∃ a ∈ t.aud, a.raw = p.audience) ∧
+      Window now t ∧ t.tid = p.clientId ∧ l.fields = true ∧
+      ((op = .sign ∧ l.scope = true) ∨ (op = .sshSign ∧ p.sshEnabled = true)) := by
+  cases op <;> simp only [azureOp, bind_ok, need_ok] at h
+  · obtain ⟨_, h', hsc⟩ := h
+    obtain ⟨a, b, c', d, e, f⟩ := azureTok_ok _ _ _ _ _ _ h'
+    exact ⟨a, b, c', d, e, f, .inl ⟨rfl, hsc⟩⟩
+  · obtain ⟨_, hs, h'⟩ := h
+    obtain ⟨a, b, c', d, e, f⟩ := azureTok_ok _ _ _ _ _ _ h'
+    exact ⟨a, b, c', d, e, f, .inr ⟨rfl, hs⟩⟩
+  all_goals exact absurd h (baseReject_ne _)
+
 theorem tokenlessOp_ok (ty : PType) (op : Op) (u : Unit) (h : tokenlessOp ty op = .ok u) :
     op = .sign ∨ (ty = .acme ∧ op = .revoke) := by
   cases ty <;> cases op <;> simp_all [tokenlessOp, baseReject]
 
-theorem provOp_ok (cfg : Config) (p : Prov) (c : Cr) (now : Int) (op : Op) (t : Tok) (u : Unit)
-    (h : provOp cfg p c now op t = .ok u) : Accepts cfg p c now op t := by
+theorem provOp_ok (cfg : Config) (p : Prov) (c : Cr) (l : Cl) (now : Int) (op : Op) (t : Tok) (u : Unit)
+    (h : provOp cfg p c l now op t = .ok u) : Accepts cfg p c l now op t := by
   unfold provOp at h
   unfold Accepts
   split at h <;> rename_i hty <;> simp only [hty]
+  · exact awsOp_ok _ _ _ _ _ _ _ _ hty h
+  · exact gcpOp_ok _ _ _ _ _ _ _ _ hty h
+  · exact azureOp_ok _ _ _ _ _ _ _ h
   · exact jwkOp_ok _ _ _ _ _ _ _ hty h
   · exact x5cOp_ok _ _ _ _ _ _ _ hty h
   · exact sshpopOp_ok _ _ _ _ _ _ _ hty h
@@ -524,7 +630,7 @@ theorem authorize_sound (cfg : Config) (now : Int) (op : Op) (t : Tok) (i : Nat)
       p.tokenId ∈ candidates t ∧ t.parsed = true ∧
       (needsSSHCA op = true → cfg.sshCA = true) ∧
       (cfg.disableIat = false → ∀ iat, t.iat = some iat → cfg.startTime ≤ iat) ∧
-      Accepts cfg p (t.crAt i) now op t := by
+      Accepts cfg p (t.crAt i) (t.clAt i) now op t := by
   unfold authorize at h
   simp only [bind_ok, need_ok] at h
   obtain ⟨_, h0, _, h1, h2⟩ := h
@@ -536,7 +642,7 @@ theorem authorize_sound (cfg : Config) (now : Int) (op : Op) (t : Tok) (i : Nat)
     obtain ⟨hm, hc⟩ := loadByToken_some _ _ _ _ hl
     have hty' : p.ty ≠ .acme ∧ p.ty ≠ .scep := by
       simpa using hty
-    refine ⟨p, hm, hty', h3, hc, h1, ?_, ?_, provOp_ok _ _ _ _ _ _ _ h5⟩
+    refine ⟨p, hm, hty', h3, hc, h1, ?_, ?_, provOp_ok _ _ _ _ _ _ _ _ h5⟩
     · intro hn; simpa [hn] using h0
     · intro hd iat hi
       simp only [hd, issuedBefore, hi, Bool.false_or, Bool.not_eq_true', decide_eq_false_iff_not] at h4
@@ -547,16 +653,16 @@ theorem authorize_sound (cfg : Config) (now : Int) (op : Op) (t : Tok) (i : Nat)
 /-- the token verifies under the key material of provisioner `p` (crypto facts `c`), per type -/
 def Verifies (p : Prov) (c : Cr) : Prop :=
   match p.ty with
-  | .jwk | .oidc | .k8ssa => c.sig = true
+  | .jwk | .oidc | .k8ssa | .gcp | .azure => c.sig = true
   | .x5c => c.chain = true ∧ c.digSig = true ∧ c.sig = true
-  | .sshpop | .nebula => c.chain = true ∧ c.sig = true
+  | .sshpop | .nebula | .aws => c.chain = true ∧ c.sig = true
   | .acme | .scep => False
 
 /-- a CA with one DNS name, one JWK provisioner, one OIDC provisioner and one ACME provisioner -/
 def exHost : Host := ⟨s "ca", false, true, s "ca", s "ca"⟩
-def exJwk : Prov := ⟨.jwk, s "jwk", s "k1", [], [], s "jwk:k1", true, true, false, false⟩
-def exOidc : Prov := ⟨.oidc, s "oidc", [], s "client", s "https://idp", s "client", true, true, false, false⟩
-def exAcme : Prov := ⟨.acme, s "acme", [], [], [], s "acme/acme", true, false, false, false⟩
+def exJwk : Prov := ⟨.jwk, s "jwk", s "k1", [], [], [], s "jwk:k1", true, true, false, false⟩
+def exOidc : Prov := ⟨.oidc, s "oidc", [], s "client", [], s "https://idp", s "client", true, true, false, false⟩
+def exAcme : Prov := ⟨.acme, s "acme", [], [], [], [], s "acme/acme", true, false, false, false⟩
 def exCfg : Config := ⟨[exHost], [exJwk, exOidc, exAcme], true, false, 1000⟩
 
 def exTok : Tok :=
@@ -590,7 +696,7 @@ def authorizeOld (cfg : Config) (now : Int) (op : Op) (t : Tok) : Out Nat := do
   | some (i, p) =>
     need p.init .disabled
     need (cfg.disableIat || !issuedBefore cfg t) .issuedBeforeStart
-    provOp cfg p (t.crAt i) now op t
+    provOp cfg p (t.crAt i) (t.clAt i) now op t
     pure i
 
 /-- **Historic refutation (D21, CVE-2025-44005 class; fixed by 719d1fc).** For the code as it stood,
@@ -631,6 +737,9 @@ theorem authorize_genuine (cfg : Config) (now : Int) (op : Op) (t : Tok) (i : Na
   · exact ⟨ha.1, ha.2.1⟩
   · exact absurd rfl h1
   · exact absurd rfl h2
+  · exact ⟨ha.2.1, ha.1⟩
+  · exact ha.1
+  · exact ha.1
 
 /-! ### non-empty subject -/
 
@@ -648,20 +757,27 @@ theorem subject_refuted :
   have hacc : authorize exCfg (2000 * ns) .sign oidcTokNoSub = .ok 1 := by decide
   exact h _ _ _ _ _ hacc rfl
 
+/-- the provisioner types whose code does not require a subject: OIDC (X.509 sign, revoke) and the
+    three cloud identity types -/
+def NoSubjectTest (ty : PType) (op : Op) : Prop :=
+  (ty = .oidc ∧ op ≠ .sshSign) ∨ ty = .gcp ∨ ty = .aws ∨ ty = .azure
+
 /-- **subject_partial / mutation: empty subject.** A token without subject is accepted only by an
-    OIDC provisioner for X.509 sign or (admins) revoke; every other provisioner type and
-    operation refuses it. -/
+    OIDC provisioner for X.509 sign or (admins) revoke, or by a cloud identity provisioner; every
+    other provisioner type and operation refuses it. -/
 theorem subject_partial (cfg : Config) (now : Int) (op : Op) (t : Tok) (i : Nat)
     (hs : t.sub = []) (h : authorize cfg now op t = .ok i) :
-    ∃ p, cfg.provs[i]? = some p ∧ p.ty = .oidc ∧ op ≠ .sshSign := by
+    ∃ p, cfg.provs[i]? = some p ∧ NoSubjectTest p.ty op := by
   obtain ⟨p, hp, ⟨h1, h2⟩, _, _, _, _, _, ha⟩ := authorize_sound _ _ _ _ _ h
   refine ⟨p, hp, ?_⟩
   unfold Accepts at ha
+  unfold NoSubjectTest
   cases hty : p.ty <;> simp only [hty] at ha h1 h2 ⊢
   · exact absurd hs ha.2.1.2.2.2
   · exact absurd hs ha.2.2.2.1.2.2.2
   · obtain ⟨_, _, _, _, hc, _⟩ := ha; exact absurd hs hc.2.2.2
-  · refine ⟨trivial, ?_⟩
+  · left
+    refine ⟨trivial, ?_⟩
     intro hop
     rcases ha.2.2.2.2.2.2.2 with h1 | ⟨h1 | h1, _⟩ | ⟨_, _, h1, _⟩
     · rw [hop] at h1; cases h1
@@ -672,13 +788,21 @@ theorem subject_partial (cfg : Config) (now : Int) (op : Op) (t : Tok) (i : Nat)
   · exact absurd hs ha.2.2.1.2.2.2
   · exact absurd rfl h1
   · exact absurd rfl h2
+  · simp
+  · simp
+  · simp
 
 theorem mutation_empty_subject (cfg : Config) (now : Int) (op : Op) (t : Tok)
-    (hno : ∀ p ∈ cfg.provs, p.ty ≠ .oidc)
+    (hno : ∀ p ∈ cfg.provs, p.ty ≠ .oidc ∧ p.ty ≠ .gcp ∧ p.ty ≠ .aws ∧ p.ty ≠ .azure)
     (hs : t.sub = []) : ∀ i, authorize cfg now op t ≠ .ok i := by
   intro i h
-  obtain ⟨p, hp, hc, _⟩ := subject_partial _ _ _ _ _ hs h
-  exact hno p (List.mem_of_getElem? hp) hc
+  obtain ⟨p, hp, hc⟩ := subject_partial _ _ _ _ _ hs h
+  obtain ⟨h1, h2, h3, h4⟩ := hno p (List.mem_of_getElem? hp)
+  rcases hc with ⟨hc, _⟩ | hc | hc | hc
+  · exact h1 hc
+  · exact h2 hc
+  · exact h3 hc
+  · exact h4 hc
 
 /-! ### one corollary per mutation class of the statement -/
 
@@ -696,6 +820,9 @@ theorem window_of_accept (cfg : Config) (now : Int) (op : Op) (t : Tok) (i : Nat
   · exact ha.2.2.1.2.1
   · exact absurd rfl h1
   · exact absurd rfl h2
+  · exact ha.2.2.2.2.1
+  · exact ha.2.2.1
+  · exact ha.2.2.2.1
 
 /-- **expired**: `exp` more than a minute in the past ⇒ refused -/
 theorem mutation_expired (cfg : Config) (now : Int) (op : Op) (t : Tok) (e : Int)
@@ -761,7 +888,7 @@ theorem mutation_other_key (cfg : Config) (now : Int) (op : Op) (t : Tok)
   · rename_i j q hl
     simp only [bind_ok, need_ok, pure_ok] at h2
     obtain ⟨_, hnt, _, _, _, _, _, h5, rfl⟩ := h2
-    have ha := provOp_ok _ _ _ _ _ _ _ h5
+    have ha := provOp_ok _ _ _ _ _ _ _ _ h5
     apply hk _ _ hl
     unfold Accepts at ha
     unfold Verifies
@@ -774,6 +901,9 @@ theorem mutation_other_key (cfg : Config) (now : Int) (op : Op) (t : Tok)
     · exact ⟨ha.1, ha.2.1⟩
     · simp [hty] at hnt
     · simp [hty] at hnt
+    · exact ⟨ha.2.1, ha.1⟩
+    · exact ha.1
+    · exact ha.1
 
 /-- the provisioner types whose tokens are minted with a key or certificate registered at the CA
     and addressed to one of the CA's URLs -/
@@ -800,6 +930,9 @@ theorem mutation_other_operation (cfg : Config) (now : Int) (op : Op) (t : Tok) 
     · simp at hu
     · simp at hu
     · exact ha.2.2.1.2.2.1
+    · simp at hu
+    · simp at hu
+    · simp at hu
     · simp at hu
     · simp at hu
   obtain ⟨a, ha', b, hb, hm⟩ := haud
@@ -864,6 +997,9 @@ theorem mutation_other_audience (cfg : Config) (now : Int) (op : Op) (t : Tok)
       · obtain ⟨_, _, h⟩ := h5; exact key _ (nebulaTok_ok _ _ _ _ _ _ _ h).2.2
     · simp at hu
     · simp at hu
+    · simp at hu
+    · simp at hu
+    · simp at hu
 
 /-! ### the hypotheses of the corollaries are met by ordinary states -/
 
@@ -891,6 +1027,36 @@ example : authorize exCfg' (2000 * ns) .sign
     { exTok with aud := [⟨s "https://ca:8443/1.0/sign", s "https://ca/1.0/sign"⟩] } = .ok 0 := by decide
 /-- empty subject (`mutation_empty_subject`) -/
 example : authorize ⟨[exHost], [exJwk], true, false, 1000⟩ (2000 * ns) .sign { exTok with sub := [] } = .reject .subject := by decide
+
+/-! ### cloud identity provisioners: the model accepts what the source accepts (not validated by the harness) -/
+
+def exGcp : Prov := ⟨.gcp, s "gcp", [], [], [], [], s "gcp/gcp", true, true, false, false⟩
+def exAzure : Prov := ⟨.azure, s "az", [], s "tenant-1", s "https://management.azure.com/", s "https://sts/tenant-1/", [], true, true, false, false⟩
+def exCloud : Config := ⟨[exHost], [exGcp, exAzure], true, false, 1000⟩
+
+def gcpTokEx : Tok :=
+  { parsed := true, kid := s "g1", iss := gcpIssuer, sub := [], aud := [⟨s "https://ca/1.0/sign#gcp/gcp", s "https://ca/1.0/sign#gcp/gcp"⟩],
+    exp := some 2300, nbf := none, iat := some 2000, azp := [], tid := [], email := [], lbtOk := true,
+    fragment := s "gcp/gcp", fragEsc := s "gcp/gcp", hasSSH := false, sshTypeOk := true, nebSshOk := true, pop := none,
+    cr := [⟨true, false, false, false, false, false, false, false⟩, Cr.none],
+    cl := [⟨true, true, true, true, true⟩, Cl.none] }
+
+/-- a verified GCP identity token without `sub` is accepted for sign and, with the same sign audience, for ssh-sign -/
+example : authorize exCloud (2000 * ns) .sign gcpTokEx = .ok 0 := by decide
+example : authorize exCloud (2000 * ns) .sshSign gcpTokEx = .ok 0 := by decide
+example : authorize exCloud (2000 * ns) .revoke gcpTokEx = .reject .notImplemented := by decide
+
+def azTokEx : Tok :=
+  { parsed := true, kid := s "a1", iss := s "https://sts/tenant-1/", sub := s "obj", aud := [⟨s "https://management.azure.com/", s "https://management.azure.com/"⟩],
+    exp := some 2300, nbf := some 1999, iat := some 2000, azp := [], tid := s "tenant-1", email := [], lbtOk := true,
+    fragment := [], fragEsc := [], hasSSH := false, sshTypeOk := true, nebSshOk := true, pop := none,
+    cr := [Cr.none, ⟨true, false, false, false, false, false, false, false⟩],
+    cl := [Cl.none, ⟨true, true, false, true, true⟩] }   -- `scope := false`: outside the configured resource groups
+
+/-- Azure: a VM outside the configured resource groups is refused an X.509 certificate but is
+    authorized for an SSH host certificate (`AuthorizeSSHSign` does not apply the filters) -/
+example : authorize exCloud (2000 * ns) .sign azTokEx = .reject .cloudFilter := by decide
+example : authorize exCloud (2000 * ns) .sshSign azTokEx = .ok 1 := by decide
 
 /-! ### nothing is signed, stored or revoked without a successful Authorize -/
 
